@@ -707,7 +707,12 @@ class RequestHandler:
             # change the timing of the exception (to the generation of the Set-Cookie header in
             # flush()). We may want to add a call to self._new_cookie.output() at the end of this
             # method to ensure that exceptions are raised when they will be most useful.
-            if attr_value is not None and re.search(r"[\x00-\x20\x3b\x7f]", attr_value):
+            forbidden = r"[\x00-\x20\x3b\x7f]"
+            if attr_name.lower() == "expires":
+                # Only reachable through the deprecated mixed-case spelling (the lowercase
+                # parameter is formatted by us): an HTTP date legitimately contains spaces.
+                forbidden = r"[\x00-\x1f\x3b\x7f]"
+            if attr_value is not None and re.search(forbidden, attr_value):
                 raise http.cookies.CookieError(
                     f"Invalid cookie attribute {attr_name}={attr_value!r} for cookie {name!r}"
                 )
